@@ -142,7 +142,7 @@ var $externalize = (v, t, makeWrapper) => {
                 if (!f.exported) {
                     continue;
                 }
-                o[f.name] = $externalize(v[f.prop], f.typ, makeWrapper);
+                o[$externalize(f.name, $String)] = $externalize(v[f.prop], f.typ, makeWrapper);
             }
             return o;
     }
@@ -397,7 +397,7 @@ var $internalize = (v, t, recv, seen, makeWrapper) => {
                 if (!f.exported) {
                     continue;
                 }
-                var jsProp = v[f.name];
+                var jsProp = v[$externalize(f.name, $String)];
                 n[f.prop] = $internalize(jsProp, f.typ, recv, seen, makeWrapper);
             }
             return n;
